@@ -11,6 +11,10 @@ Cases (JSON):
          (let* [x v] ...), compiled in namespace rns.
      '@' in any string is replaced by a per-case unique prefix on the implementation side; the
      prefix used is returned and the Gallina case is built from it (coq_pair).
+   optional "files": {ns: [[name, flags, value]...]}: these namespaces are not created in memory but
+     written as .lpy files ((ns X) (def ...)...) into a scratch directory on sys.path; they are loaded by
+     the first require/refer naming them.  On the Coq side that load is the three steps
+     in-ns X; def ...; in-ns <back> inserted before that require (coq_pair).
   {"k": "munge", "l": [strings]}
 """
 import itertools
@@ -36,8 +40,10 @@ RULE = ("histories of def (plain / ^:dynamic / ^:redef / ^:private) / redefiniti
         "namespace, fully qualified by every namespace, and under a let* local of the same / of a colliding name; "
         "each read compiled with direct linking and with use-var-indirection (a fifth of the cases also with "
         "inline-functions off). Exhaustive: all histories of length <= 3 over 6 step kinds for each of the 4 "
-        "colliding name pairs, length 4 for a-b/a_b, length <= 3 over 7 namespace step kinds, length 4 over 5, "
-        "length <= 3 over 7 privacy step kinds; random histories of length 5-12 beyond. munge: the real "
+        "colliding name pairs, length 4 over 5 step kinds for a-b/a_b, length <= 3 over 7 namespace step kinds, length 4 over 5, "
+        "length <= 3 over 7 privacy step kinds, length <= 2 (+40 of length 3) over 6 step kinds on FILE-BACKED "
+        "namespaces written to a scratch directory; random histories of length 5-12 beyond (read after every "
+        "step). munge: the real "
         "util.munge on every string of length <= 2 over 19 characters, the pool, all Python keywords and builtins "
         "with and without a trailing underscore, random strings. Non-trivial = a history of >= 2 steps in which "
         "some read yields a value; distinct = distinct JSON.")
@@ -94,12 +100,12 @@ def expand(rf):
 NO_READS = {"readers": [], "names": [], "let": None, "partner": None}
 
 
-def with_reads(nss, ops, modes=M2, wide=False, every=False, maxnames=4):
+def with_reads(nss, ops, modes=M2, wide=False, every=False, maxnames=4, files=None):
     """attach read requests: after the last step (after every step when `every`) read the
     `maxnames` most recently defined names from the current namespace (`wide` or last step:
     from every namespace visited so far)"""
     cur = nss[0]
-    defined = []            # names defined so far (anywhere), most recent last
+    defined = [d[0] for defs in (files or {}).values() for d in defs]   # names defined (anywhere), most recent last
     aliases = {}            # reading ns -> [alias...]
     visited = [cur]
     steps = []
@@ -126,12 +132,15 @@ def with_reads(nss, ops, modes=M2, wide=False, every=False, maxnames=4):
             continue
         names = defined[-maxnames:] or [POOL[0]]
         readers = visited if (last or wide) else [cur]
-        known_ns = nss + [v for v in visited if v not in nss]
+        known_ns = nss + sorted(files or {}) + [v for v in visited if v not in nss]
         n0 = names[-1]
         rf = {"readers": [[rns, known_ns + aliases.get(rns, [])] for rns in readers],
               "names": names, "let": n0, "partner": PARTNER.get(n0)}
         steps.append({"op": op, "rf": rf})
-    return {"k": "hist", "nss": list(nss), "modes": modes, "steps": steps}
+    case = {"k": "hist", "nss": list(nss), "modes": modes, "steps": steps}
+    if files:
+        case["files"] = files
+    return case
 
 
 def number(ops):
@@ -161,6 +170,12 @@ ALPHA_NS7 = [["def", "v", PLAIN, 0], ["in-ns", X], ["in-ns", Y], ["in-ns", U],
 ALPHA_NS5 = [["def", "v", PLAIN, 0], ["in-ns", Y], ["in-ns", U], ["require", X, "fb"], ["require", Y, "fd"]]
 ALPHA_PRIV = [["def", "v", PLAIN, 0], ["def", "v", [0, 0, 1], 0], ["in-ns", X], ["in-ns", U],
               ["refer", X, ["v"]], ["require", X, "fb"], ["alter", X, "v", 0]]
+
+
+# file-backed namespaces (foo-bar and foo_bar would be the same file foo_bar.lpy)
+FILES = {X: [["v", PLAIN, 1], ["a-b", PLAIN, 2]], Y: [["v", PLAIN, 3], ["a_b", PLAIN, 4]]}
+ALPHA_DISK = [["require", X, "fb"], ["require", Y, "fd"], ["refer", X, ["v"]], ["refer", Y, ["a_b"]],
+              ["def", "v", PLAIN, 0], ["alter", X, "v", 0]]
 
 
 def random_history(rng, n):
@@ -215,7 +230,8 @@ WITNESSES = {
                                 ["require", X, "fb"], ["def", "@-foo-bar", PLAIN, 0]])),
     ],
     "F-10d": [with_reads([U], [["in-ns", U]])],
-    "F-10c": [with_reads(NSS, number([["in-ns", X], ["def", "v", PLAIN, 0], ["in-ns", U], ["refer", X, ["v"]],
+    "F-10b-disk": [with_reads([U], [["require", X, "fb"], ["require", Y, "fd"]], every=True, files=FILES)],
+    "F-10c": [with_reads([U, X], number([["in-ns", X], ["def", "v", PLAIN, 0], ["in-ns", U], ["refer", X, ["v"]],
                                       ["in-ns", X], ["def", "v", [0, 0, 1], 0], ["in-ns", U]]))],
 }
 
@@ -235,18 +251,33 @@ def cases(tier, rng):
     for i in range(0, len(strs), 250):
         yield {"k": "munge", "l": strs[i:i + 250]}
     quick = tier == "quick"
+
+    def sampled(seqs, k):
+        seqs = list(seqs)
+        return seqs if len(seqs) <= k else rng.sample(seqs, k)
+
     for p, q in PAIRS:
         for ops in sequences(alpha_pair(p, q), 3 if quick else 4):
             yield with_reads([U], ops, modes())
     if quick:
-        for ops in sequences(alpha_pair(*PAIRS[0]), 4, 4):
+        for ops in sequences(alpha_pair(*PAIRS[0])[:5], 4, 4):
             yield with_reads([U], ops, modes())
     for ops in sequences(ALPHA_NS7, 3 if quick else 4):
         yield with_reads(NSS, ops, modes())
-    for ops in sequences(ALPHA_NS5, 4 if quick else 6, 4 if quick else 5):
+    for ops in sequences(ALPHA_NS5, 4 if quick else 5, 4):
         yield with_reads([X, U, Y, Z], ops, modes())
-    for ops in sequences(ALPHA_PRIV, 3 if quick else 5):
-        yield with_reads(NSS, ops, modes())
+    for ops in sequences(ALPHA_PRIV, 3 if quick else 4):
+        yield with_reads([U, X], ops, modes())
+    if not quick:
+        for ops in sampled(sequences(ALPHA_NS5, 6, 6), 3000):
+            yield with_reads([X, U, Y, Z], ops, modes())
+        for ops in sampled(sequences(ALPHA_PRIV, 5, 5), 3000):
+            yield with_reads([U, X], ops, modes())
+    disk = list(sequences(ALPHA_DISK, 2 if quick else 4))
+    if quick:
+        disk += rng.sample(list(sequences(ALPHA_DISK, 3, 3)), 40)
+    for ops in disk:
+        yield with_reads([U], ops, modes(), every=True, files=FILES)
     for _ in range(240 if quick else 6000):
         n = rng.randint(5, 12) if quick or rng.random() < 0.7 else rng.randint(13, 24)
         yield with_reads(NSS, random_history(rng, n), modes(), wide=rng.random() < 0.2, every=True)
@@ -324,9 +355,27 @@ def _fail(o):
     return "(OFail 2%N)"
 
 
+def _model_steps(c):
+    """the steps the Coq side sees: the load of a file-backed namespace is spelled out before the
+    first require/refer that names it.  Yields (op, rf, injected?)"""
+    files = c.get("files") or {}
+    cur, loaded = c["nss"][0], set()
+    for s in c["steps"]:
+        op = s["op"]
+        if op[0] in ("require", "refer") and op[1] in files and op[1] not in loaded:
+            loaded.add(op[1])
+            yield ["in-ns", op[1]], NO_READS, True
+            for n, fl, v in files[op[1]]:
+                yield ["def", n, fl, v], NO_READS, True
+            yield ["in-ns", cur], NO_READS, True
+        if op[0] == "in-ns":
+            cur = op[1]
+        yield op, s["rf"], False
+
+
 def _hist(c, nm):
     modes = G.lst(["Indirect" if m[0] else "Direct" for m in c["modes"]], "mode")
-    steps = G.lst([f"({_step(s['op'], nm)}, {_rf(s['rf'], nm)})" for s in c["steps"]], "(step * list readreq)")
+    steps = G.lst([f"({_step(op, nm)}, {_rf(rf, nm)})" for op, rf, _ in _model_steps(c)], "(step * list readreq)")
     return f"(CHist {G.lst([nm(n) for n in c['nss']], 'str')} {modes} {steps})"
 
 
@@ -342,10 +391,21 @@ def coq_pair(c, o):
     nm = _Names(o["prefix"] if good else "c10q0")
     case = _hist(c, nm)
     if good:
-        out = "(OHist " + G.lst(
-            ["({}, {})".format(G.b(bool(s["ok"])),
-                               G.lst(['(row "' + " ".join(_tok(x) for x in r) + '")' for r in s["reads"]], "(list robs)"))
-             for s in o["steps"]], "(bool * list (list robs))") + ")"
+        impl = iter(o["steps"])
+        empty = G.lst(['(row "")' for _ in c["modes"]], "(list robs)")
+        rows = []
+        for _, _, injected in _model_steps(c):
+            if injected:            # part of the file load: no observation of its own
+                rows.append(f"(true, {empty})")
+                continue
+            s = next(impl, None)
+            if s is None:
+                rows.append(f"(false, {G.lst([], '(list robs)')})")
+                continue
+            rows.append("({}, {})".format(
+                G.b(bool(s["ok"])),
+                G.lst(['(row "' + " ".join(_tok(x) for x in r) + '")' for r in s["reads"]], "(list robs)")))
+        out = "(OHist " + G.lst(rows, "(bool * list (list robs))") + ")"
     else:
         out = _fail(o)
     return nm.wrap(f"({case}, {out})")
@@ -380,9 +440,9 @@ def shrink(c):
         return
     ops = [s["op"] for s in c["steps"]]
     for i in range(len(ops)):
-        yield with_reads(c["nss"], ops[:i] + ops[i + 1:], c["modes"], every=True)
+        yield with_reads(c["nss"], ops[:i] + ops[i + 1:], c["modes"], every=True, files=c.get("files"))
     if len(c["modes"]) > 2:
-        yield with_reads(c["nss"], ops, M2, every=True)
+        yield with_reads(c["nss"], ops, M2, every=True, files=c.get("files"))
 
 
 def extra_evidence(cases_, outs):
